@@ -16,7 +16,10 @@ package miner
 // builder's state.
 //
 // Space: rule sets {cancun, prague, osaka, amsterdam} x payload-attribute
-// combinations x every subset of <= 3 transactions of a 14-entry alphabet.
+// combinations x every subset of <= 3 transactions of a 20-entry alphabet
+// (incl. transactions that are valid at the head state but get rejected while the
+// block is built because an earlier transaction of the block drained the sender,
+// used its nonce or spent its funds, followed by further includable ones).
 //
 // Oracle: import (header verification, body validation, execution, state
 // validation: state root, receipt root, bloom, gas used, requests hash, access
@@ -32,6 +35,7 @@ import (
 	"fmt"
 	"math/big"
 	"sort"
+	"strings"
 	"sync"
 	"testing"
 	"time"
@@ -105,7 +109,12 @@ func (p *c36Pool) set(txs []*types.Transaction, signer types.Signer) {
 		m[from] = append(m[from], tx)
 	}
 	for _, l := range m {
-		sort.Slice(l, func(i, j int) bool { return l[i].Nonce() < l[j].Nonce() })
+		sort.SliceStable(l, func(i, j int) bool {
+			if l[i].Nonce() != l[j].Nonce() {
+				return l[i].Nonce() < l[j].Nonce()
+			}
+			return l[i].GasTipCap().Cmp(l[j].GasTipCap()) > 0 // competing transactions: the better paying one first
+		})
 	}
 	p.mu.Lock()
 	p.content = m
@@ -194,6 +203,8 @@ var (
 	c36Benef    = common.HexToAddress("0xbe00000000000000000000000000000000003606")
 	c36WdAddr   = common.HexToAddress("0x3d00000000000000000000000000000000003607")
 	c36FeeRcpt  = common.HexToAddress("0xfe00000000000000000000000000000000003608")
+	c36Forwarder = common.HexToAddress("0xf300000000000000000000000000000000003609")
+	c36Sink     = common.HexToAddress("0x5100000000000000000000000000000000003610")
 )
 
 type c36Entry struct {
@@ -241,7 +252,7 @@ func c36NewWorld(f c36Fork) *c36World {
 		alloc[addr] = acc
 	}
 	rich := new(big.Int).Mul(big.NewInt(1000), big.NewInt(params.Ether))
-	for i := 0; i < 14; i++ {
+	for i := 0; i < 18; i++ {
 		k := c36Key(i)
 		w.keys = append(w.keys, k)
 		w.addrs = append(w.addrs, crypto.PubkeyToAddress(k.PublicKey))
@@ -249,6 +260,20 @@ func c36NewWorld(f c36Fork) *c36World {
 	}
 	authKey := c36Key(100)
 	authority := crypto.PubkeyToAddress(authKey.PublicKey)
+
+	// V: an externally owned account that is EIP-7702-delegated in genesis to a
+	// forwarder (CALL(sink, SELFBALANCE)): from Prague on, anybody's call of V
+	// drains V, so a transaction of V that is affordable at the head state becomes
+	// unaffordable behind such a call in the same block.
+	vKey := c36Key(101)
+	vAddr := crypto.PubkeyToAddress(vKey.PublicKey)
+	forwarder := program.New().Push(0).Push(0).Push(0).Push(0).Op(vm.SELFBALANCE).Push(c36Sink).Op(vm.GAS, vm.CALL, vm.POP, vm.STOP).Bytes()
+	alloc[c36Forwarder] = types.Account{Code: forwarder, Nonce: 1, Balance: common.Big0}
+	alloc[c36Sink] = types.Account{Balance: big.NewInt(1)}
+	alloc[vAddr] = types.Account{Code: types.AddressToDelegation(c36Forwarder), Balance: big.NewInt(10_000_000_000_000_000)}
+	// the sender of POOR1/POOR2 can pay for the first of its two transactions only
+	const poor = 14
+	alloc[crypto.PubkeyToAddress(c36Key(poor).PublicKey)] = types.Account{Balance: big.NewInt(2_100_000_000_000_000)}
 
 	revert := program.New().Sstore(0, 1).Push(0).Push(0).Op(vm.REVERT).Bytes()
 	_, loopAt := program.New().Jumpdest()
@@ -304,8 +329,17 @@ func c36NewWorld(f c36Fork) *c36World {
 		{"CREATE", dyn(9, 0, nil, 0, 3_000_000, gwei(10), gwei(2), initcode), "always"},
 		{"SELFDESTRUCT", dyn(10, 0, &c36Suicide, 0, 1_000_000, gwei(10), gwei(1), nil), "always"},
 		{"WREQ", dyn(11, 0, &params.WithdrawalQueueAddress, 1, 1_000_000, gwei(10), gwei(10), wreq), "always"},
-		{"LOWGAS", dyn(12, 0, &c36Fresh, 1, 20_000, gwei(10), gwei(11), nil), "never"},
+		{"LOWGAS", dyn(12, 0, &c36Fresh, 1, 20_000, gwei(12), gwei(11), nil), "never"},
+		// transactions whose executability depends on an earlier transaction of the same block
+		{"NONCE_DUP", dyn(0, 0, &c36Fresh, 5, 1_000_000, gwei(10), new(big.Int).Add(gwei(9), big.NewInt(500_000_000)), nil), "always"},
+		{"POOR1", dyn(poor, 0, &w.addrs[1], 1_000_000_000_000_000, 100_000, gwei(10), gwei(7), nil), "always"},
+		{"POOR2", dyn(poor, 1, &w.addrs[1], 0, 100_000, gwei(10), gwei(7), nil), "never"},
+		{"DRAIN_V", dyn(15, 0, &vAddr, 0, 1_000_000, gwei(10), gwei(9), nil), "always"},
+		{"V_TX", types.MustSignNewTx(vKey, w.signer, &types.DynamicFeeTx{ChainID: chainID, Nonce: 0, To: &c36Fresh, Value: big.NewInt(3), Gas: 100_000, GasFeeCap: gwei(10), GasTipCap: gwei(6)}), "unless-prague:DRAIN_V"},
+		{"TAIL", dyn(16, 0, &w.addrs[1], 2, 1_000_000, gwei(10), big.NewInt(500_000_000), nil), "always"},
 	}
+	w.entries[0].includable = "unless:NONCE_DUP"           // XFER has the same sender and nonce as NONCE_DUP, which pays more
+	w.entries[1].includable = "after-any:XFER,NONCE_DUP" // XFER2 needs nonce 0 of its sender to be used
 	return w
 }
 
@@ -387,7 +421,7 @@ func TestVerif_C36(t *testing.T) {
 	mc.Run(t, "C36", func(r *mc.R) {
 		maxSize := mc.Pick(r, 3, 4)
 		r.Rule("rule sets {cancun, prague, osaka, amsterdam} x 3 payload-attribute combinations (withdrawals none / one / two incl. a zero amount and a sender, beacon root zero / set, random zero / set, fee recipient fresh / a sender, miner blob cap default / 2) " +
-			"x every subset of <= max_pool_size transactions of the 14-entry alphabet as pool content; per case the empty and the full payload are round-tripped through engine executable data and imported on an independent chain; " +
+			"x every subset of <= max_pool_size transactions of the 20-entry alphabet as pool content (quick: subsets of the maximal size take one attribute combination each, round robin); per case the empty and the full payload are round-tripped through engine executable data and imported on an independent chain; " +
 			"distinct = distinct imported block hashes")
 		r.Bound("max_pool_size", maxSize)
 		r.Assume("the pool is a stub txpool.SubPool that hands the builder the enumerated content unfiltered (superset of what the real legacy/blob pools would return); blob sidecars carry dummy commitments/proofs (nothing on the build/import path verifies KZG proofs)")
@@ -413,8 +447,12 @@ func TestVerif_C36(t *testing.T) {
 			worlds = append(worlds, w)
 			subsets := c36Subsets(len(w.entries), maxSize)
 			r.Bound("pools."+f.name, len(subsets))
-			for _, a := range w.attrs() {
-				for _, s := range subsets {
+			for ai, a := range w.attrs() {
+				for si, s := range subsets {
+					// quick tier: pools of the maximal size get one of the attribute combinations (round robin)
+					if r.Quick() && len(s) == maxSize && si%len(w.attrs()) != ai {
+						continue
+					}
 					jobs = append(jobs, job{w, a, s})
 				}
 			}
@@ -550,15 +588,7 @@ func (g *c36Rig) check(r *mc.R, subset []int, freshChain bool) error {
 	blobsWanted := 0
 	for _, s := range subset {
 		e := w.entries[s]
-		ok := false
-		switch {
-		case e.includable == "always":
-			ok = true
-		case e.includable == "prague":
-			ok = w.fork.prague
-		case len(e.includable) > 6 && e.includable[:6] == "after:":
-			ok = inPool[e.includable[6:]]
-		}
+		ok := c36Includable(e.includable, inPool, w.fork.prague)
 		if ok && e.tx.Type() == types.BlobTxType {
 			blobsWanted += len(e.tx.BlobHashes())
 			if a.maxBlobs != 0 && blobsWanted > a.maxBlobs {
@@ -705,4 +735,30 @@ func (g *c36Rig) importPayload(r *mc.R, kind string, args *BuildPayloadArgs, env
 		r.Outcome(kind + ":InsertChain-on-fresh-chain")
 	}
 	return nil
+}
+
+// c36Includable evaluates the naive inclusion model of an alphabet entry.
+func c36Includable(rule string, inPool map[string]bool, prague bool) bool {
+	switch {
+	case rule == "always":
+		return true
+	case rule == "never":
+		return false
+	case rule == "prague":
+		return prague
+	case strings.HasPrefix(rule, "after:"):
+		return inPool[rule[6:]]
+	case strings.HasPrefix(rule, "after-any:"):
+		for _, n := range strings.Split(rule[10:], ",") {
+			if inPool[n] {
+				return true
+			}
+		}
+		return false
+	case strings.HasPrefix(rule, "unless:"):
+		return !inPool[rule[7:]]
+	case strings.HasPrefix(rule, "unless-prague:"):
+		return !(prague && inPool[rule[14:]])
+	}
+	panic("c36: unknown inclusion rule " + rule)
 }
